@@ -490,13 +490,14 @@ class tree:
         notify the repository that a pkg it provides is being removed
         """
         ver_key = (pkg.category, pkg.package)
-        l = [x for x in self.versions[ver_key] if x != pkg.fullver]
+        # the backend may already have dropped the package (or its whole
+        # category); the listings must not be consulted for what they held,
+        # only invalidated.
+        l = [x for x in self.versions.get(ver_key, ()) if x != pkg.fullver]
         if not l:
-            # dead package
-            wipe = list(self.packages[pkg.category]) == [pkg.package]
+            # dead package, possibly a dead category
             self.packages.force_regen(pkg.category)
-            if wipe:
-                self.categories.force_regen()
+            self.categories.force_regen()
         self.versions.force_regen(ver_key, tuple(l))
 
     def notify_add_package(self, pkg):
